@@ -34,6 +34,16 @@ def fnavg(k):
     return f
 
 
+def fnavg1d(k):
+    base = fn1d(k)
+
+    def f(seed_x):
+        seed, x = seed_x
+        h = (int(seed) * 2654435761 + k * 40503 + int(round(float(x) * 1000)) * 97) % 2 ** 32
+        return base(x) + (h / 2 ** 32 - 0.5) * 0.2 * (1 + k % 3)
+    return f
+
+
 def make_child(kind: str, k: int, size: int = 60):
     """A fresh real learner of the given kind (k varies the function/domain)."""
     import adaptive
@@ -49,6 +59,12 @@ def make_child(kind: str, k: int, size: int = 60):
         return adaptive.LearnerND(fnnd(k), b)
     if kind == "int":
         return adaptive.IntegratorLearner(fn1d(k), bounds=(0.0, 1.0) if k % 2 == 0 else (-1.0, 2.0), tol=1e-8)
+    if kind == "l2d":          # C18 only
+        b = [(-1.0, 1.0), (-1.0, 1.0)] if k % 2 == 0 else [(0.0, 2.0), (-1.0, 3.0)]
+        return adaptive.Learner2D(fnnd(k), b)
+    if kind == "avg1d":        # C18 only; points are (seed, x)
+        b = [(-1.0, 1.0), (0.0, 2.0), (-3.0, 5.0)][k % 3]
+        return adaptive.AverageLearner1D(fnavg1d(k), b, min_samples=1 + k % 3, max_samples=6 + k % 3, delta=0.3 + 0.1 * (k % 2))
     raise ValueError(kind)
 
 
@@ -61,8 +77,10 @@ def enc_point(kind: str, p):
     """A point as a list of doubles (Run/OracleChild.v [pt])."""
     if kind == "seq":
         return [float(p[0])] if isinstance(p, tuple) else [float(p)]
-    if kind == "lnd":
+    if kind in ("lnd", "l2d"):
         return [float(c) for c in p]
+    if kind == "avg1d":        # a sample is (seed, x); the keys of `data` are plain x
+        return [float(c) for c in p] if isinstance(p, tuple) else [float(p)]
     return [float(p)]
 
 
@@ -70,10 +88,12 @@ def hashable(kind: str, p):
     """The key under which the learner stores the point in data / pending_points."""
     if kind == "seq":
         return int(p[0]) if isinstance(p, tuple) else int(p)
-    if kind == "lnd":
+    if kind in ("lnd", "l2d"):
         return tuple(float(c) for c in p)
     if kind == "avg":
         return int(p)
+    if kind == "avg1d":
+        return (int(p[0]), float(p[1])) if isinstance(p, tuple) else float(p)
     return float(p)
 
 
@@ -116,10 +136,12 @@ _REG: dict = {}     # id(child) -> Recorder  (not stored on the child: LearnerND
 _SUB: dict = {}     # learner class -> recording subclass
 
 
-def _subclass(cls):
-    if cls not in _SUB:
+def _subclass(cls, names=None):
+    names = tuple(names or Recorder.NAMES)
+    key = cls if names == Recorder.NAMES else (cls, names)
+    if key not in _SUB:
         ns = {}
-        for name in Recorder.NAMES:
+        for name in names:
             def mk(name):
                 orig = getattr(cls, name)
 
@@ -131,8 +153,8 @@ def _subclass(cls):
                 m.__name__ = name
                 return m
             ns[name] = mk(name)
-        _SUB[cls] = type("Rec" + cls.__name__, (cls,), ns)
-    return _SUB[cls]
+        _SUB[key] = type("Rec" + cls.__name__, (cls,), ns)
+    return _SUB[key]
 
 
 class Recorder:
@@ -143,13 +165,16 @@ class Recorder:
 
     NAMES = ("ask", "tell", "tell_many", "tell_pending", "remove_unfinished")
 
-    def __init__(self, kind: str, child, index: int = 0, on_call=None):
-        self.kind, self.child, self.index = kind, child, index
+    def __init__(self, kind: str, child, index: int = 0, on_call=None, names=None, tolerant=False):
+        """`names`: the methods to hook (default NAMES; C18 adds "_set_data", logged as CSetData).
+        `tolerant`: a child whose loss() raises is snapshotted with nan losses instead of raising inside
+        the wrapper's call (the caller looks at the child itself afterwards)."""
+        self.kind, self.child, self.index, self.tolerant = kind, child, index, tolerant
         self.log: list[dict] = []
         self.depth = 0
         self.on_call = on_call          # callback(recorder, entry) after every outside call
         self.base = type(child)
-        child.__class__ = _subclass(self.base)
+        child.__class__ = _subclass(self.base, names)
         self.snap0 = self.snapshot(full=True)
         self.current = self.snap0       # the snapshot that describes the child's present state
         _REG[id(child)] = self
@@ -160,7 +185,15 @@ class Recorder:
 
     def snapshot(self, full=False):
         c = self.child
-        return {"npoints": int(c.npoints), "loss_r": child_loss(c, True), "loss_e": child_loss(c, False),
+        if self.tolerant:
+            def closs(c, real):
+                try:
+                    return child_loss(c, real)
+                except Exception:
+                    return float("nan")
+        else:
+            closs = child_loss
+        return {"npoints": int(c.npoints), "loss_r": closs(c, True), "loss_e": closs(c, False),
                 "pend": child_pending(self.kind, c),
                 "data": child_data(self.kind, c) if full else None}
 
@@ -215,6 +248,8 @@ class Recorder:
             e["call"] = ("tell", enc_point(self.kind, args[0]), float(args[1]))
         elif name == "tell_pending":
             e["call"] = ("tell_pending", enc_point(self.kind, args[0]))
+        elif name == "_set_data":
+            e["call"] = ("set_data",)
         else:
             e["call"] = ("remove",)
         e["after"] = self.snapshot()
@@ -244,6 +279,8 @@ def call_term(c):
         return C.app("CTell", pt_term(c[1]), C.flt(c[2]))
     if c[0] == "tell_pending":
         return C.app("CTellPending", pt_term(c[1]))
+    if c[0] == "set_data":
+        return "CSetData"
     return "CRemove"
 
 
